@@ -73,6 +73,11 @@ instance (t : Torrent) : Decidable t.wf := by unfold Torrent.wf; exact inferInst
 /-- The announce key as the code derives it (both transports): the last four peer-id bytes. -/
 def keyBytes (t : Torrent) : Bytes := t.peerID.drop 16
 
+/-- A concrete well-formed torrent (peer id `ABC…T`, not ending in zero bytes) for non-vacuity examples. -/
+def sampleTorrent : Torrent :=
+  { infoHash := List.replicate 20 0xab, peerID := (List.range 20).map (· + 0x41), port := 6881,
+    up := 1, down := 2 ^ 40, left := 0 }
+
 /-! ### UDP requests -/
 
 def connectionIDMagic : Nat := 0x41727101980
